@@ -108,33 +108,31 @@ GUARDS.update(PSEUDO)
 
 
 class CursorWatch:
-    """C06: observes, per side, which provider events have been applied (state.update + commit done) and which
-    cursor values are written to storage; a stored cursor must never be ahead of the applied events."""
+    """C06: records, per side, the cursor-relevant actions of the real event manager in the vocabulary of
+    CursorModel.v (CNew, CApplyAt e, CStore c, CWalk, CRestart, CLoseCursor, CReset); the extracted acceptor
+    judges them (a stored cursor must never be ahead of the applied events unless storage records that a walk is due)."""
 
     def __init__(self):
-        self.applied = {0: -1, 1: -1}       # highest provider event index whose processing completed
-        self.yielded = {0: -1, 1: -1}
-        self.ahead = []
-        self.pending = []
+        self.acts = {0: [], 1: []}
+        self.known_latest = {0: 0, 1: 0}
+        self.marker_seen = {0: False, 1: False}
         self.saves = 0
         self.fallbacks = 0
-        self.walked = {}
 
-    def end_of_step(self, eng=None):
-        """at a step boundary every stored cursor must be <= the last applied event of its side, unless the
-        event manager has fallen back to a full walk (cursor missing or rejected: the walk re-discovers)"""
-        for side, data in self.pending:
-            if data > self.applied[side]:
-                if eng is not None and (eng.cs.emgrs[side].need_walk or self.walked.get(side)):
-                    self.applied[side] = data
-                    self.fallbacks += 1
-                else:
-                    self.ahead.append((side, data, self.applied[side]))
-        self.pending = []
-        self.walked = {}
+    def sync_latest(self, side, prov):
+        n = prov._latest_cursor + 1
+        while self.known_latest[side] < n:
+            self.acts[side].append([0])
+            self.known_latest[side] += 1
+
+    def restart(self, side, lose_cursor):
+        if lose_cursor:
+            self.acts[side].append([5])
+        self.acts[side].append([4])
 
     def attach(self, eng):
         watch = self
+        st = eng.cs.state
         for side in (0, 1):
             em = eng.cs.emgrs[side]
             prov = eng.world.provs[side]
@@ -142,10 +140,11 @@ class CursorWatch:
 
             def mk(side, orig_pe, prov):
                 def pe(event, from_walk=False):
-                    cur = prov._cursor
+                    idx = event.new_cursor if (event is not None and event.new_cursor is not None) else prov._cursor
                     r = orig_pe(event, from_walk=from_walk)
                     if not from_walk:
-                        watch.applied[side] = max(watch.applied[side], cur)
+                        watch.sync_latest(side, prov)
+                        watch.acts[side].append([1, idx + 1])
                     return r
                 return pe
             em._process_event = mk(side, orig_pe, prov)
@@ -153,24 +152,47 @@ class CursorWatch:
 
             def mkw(side, orig_walk, em):
                 def walk():
-                    if em.need_walk:
-                        watch.walked[side] = True
-                    return orig_walk()
+                    before = em.need_walk and bool(em._root_oid)
+                    r = orig_walk()
+                    if before and not em.need_walk:
+                        watch.acts[side].append([3])
+                        watch.marker_seen[side] = True
+                    return r
                 return walk
             em._do_walk_if_needed = mkw(side, orig_walk, em)
-        st = eng.cs.state
         orig_upd = st.storage_update_data
 
         def upd(tag, data):
-            if tag and "_cursor" in tag and isinstance(data, int):
+            if tag and "_cursor" in tag:
                 side = 0 if eng.cs.emgrs[0]._cursor_tag == tag else 1
+                em = eng.cs.emgrs[side]
+                prov = eng.world.provs[side]
                 watch.saves += 1
-                watch.pending.append((side, data))      # judged at the end of the engine step (a stop point)
+                watch.sync_latest(side, prov)
+                val = data + 1 if isinstance(data, int) else 0
+                # 'walked' marker as STORAGE has it right now (read from the real storage, not from memory):
+                # if it was dropped since we last looked, the engine performed a cursor reset
+                marker = None
+                try:
+                    marker = st._storage.read_all(em._walk_tag) if (st._storage is not None and em._walk_tag) else None
+                except Exception:
+                    marker = None
+                if watch.marker_seen.get(side) and not marker:
+                    watch.acts[side].append([6])
+                    watch.fallbacks += 1
+                watch.marker_seen[side] = bool(marker)
+                watch.acts[side].append([2, val])
             return orig_upd(tag, data)
         st.storage_update_data = upd
-        self.start_cursor = {s: eng.world.provs[s]._cursor for s in (0, 1)}
-        for s in (0, 1):
-            self.applied[s] = max(self.applied[s], eng.world.provs[s]._cursor)
+
+    def judge(self):
+        global _CURSOR_PROC
+        if _CURSOR_PROC is None:
+            _CURSOR_PROC = fw.ModelProc("cursor")
+        return _CURSOR_PROC.call([self.acts[0], self.acts[1]])
+
+
+_CURSOR_PROC = None
 
 
 def run_case(case, monitor, storage_factory=None, hooks=None, extra_rounds=6, keep_engine=False, oracles=()):
@@ -240,11 +262,7 @@ def run_case(case, monitor, storage_factory=None, hooks=None, extra_rounds=6, ke
             bad = compare_storage(eng.cs.state, storage, eng.cs.state._tag)
             if bad:
                 pseudo.append((len(obs), 102, [repr(b)[:200] for b in bad[:3]]))
-        if cursor_watch:
-            cursor_watch.end_of_step(H["eng"])
-            if cursor_watch.ahead:
-                pseudo.append((len(obs), 104, list(cursor_watch.ahead)))
-                cursor_watch.ahead.clear()
+
 
     def step(kind, side=None):
         eng = H["eng"]
@@ -287,6 +305,9 @@ def run_case(case, monitor, storage_factory=None, hooks=None, extra_rounds=6, ke
                                 storage.update(tag, "rejected-cursor", eid)
             storage.close()
             storage = tstore.open()
+        if cursor_watch:
+            for sd in (0, 1):
+                cursor_watch.restart(sd, mode in ("cursor_removed", "cursor_rejected"))
         new_engine()
         res.extra["restarts"] = res.extra.get("restarts", 0) + 1
 
@@ -296,6 +317,9 @@ def run_case(case, monitor, storage_factory=None, hooks=None, extra_rounds=6, ke
         if storage is not None and tstore is not None:
             storage.close()
             storage = tstore.open()
+        if cursor_watch:
+            for sd in (0, 1):
+                cursor_watch.restart(sd, False)
         new_engine()
 
     try:
@@ -409,6 +433,12 @@ def run_case(case, monitor, storage_factory=None, hooks=None, extra_rounds=6, ke
         res.extra["provider_writes"] = eng.provider_writes
         if cursor_watch:
             res.extra["cursor_saves"] = cursor_watch.saves
+            res.extra["cursor_fallbacks"] = cursor_watch.fallbacks
+            cv = cursor_watch.judge()
+            if cv != []:
+                res.extra["oracle_detail"] = dict(side=cv[0], action_index=cv[1], actions=cursor_watch.acts[cv[0]][max(0, cv[1] - 6):cv[1] + 1])
+                if res.verdict == []:
+                    res.verdict = [len(obs), 104]
         if keep_engine:
             res.extra["engine"] = eng
             res.extra["world"] = world
